@@ -454,7 +454,7 @@ pub fn run() {
                                     let pos = o.stream_position().unwrap_or(0);
                                     let _ = o.seek(SeekFrom::Start(0));
                                     let _ = o.read_to_end(&mut s);
-                                    *old_seen.borrow_mut() = format!("{}@{}", show(&s), pos);
+                                    let _ = pos; *old_seen.borrow_mut() = show(&s);
                                 }
                                 if pop_s == "notfound" {
                                     return Err(std::io::Error::new(std::io::ErrorKind::NotFound, "populate: not found"));
